@@ -46,6 +46,10 @@ REQUIRE = {
     "oracle_e_equal_with_resize_while_pending": 500,
     "oracle_b_esc_prefixed_table_judged": 1404,
     "oracle_b_esc_prefixed_meta_named_judged": 300,
+    "oracle_b_esc_nested_judged": 230,
+    "esc_depth:2": 75,
+    "esc_depth:3": 75,
+    "esc_depth:4": 75,
     "oracle_a_event_names_checked": 100000,
     "schedules_mixed_entry": 2000,
     "rehook:with-bytes-pending": 900,
@@ -111,6 +115,8 @@ ASSUMES = [
     "motion-without-button, no wheel release; a CPR that is textually a table entry (ESC[1;2R = 'shift f3') is ambiguous "
     "and not judged; ESC followed by a mouse report / a 'meta ...' key / a CPR has no documented name and is judged for "
     "totality and fragmentation only",
+    "ESC-prefix rule for any nesting depth: the first event of what follows ESC takes 'meta ', unless it is a report, 'esc' or "
+    "already carries 'meta ' - then ESC is its own 'esc' event; the rest of the inner run is reported unchanged (ESC^k + token, k<=4)",
     "'meta' rule from the documentation (ALT+J -> 'meta j'): ESC + key -> 'meta <key>', also for ESC + named sequence; a key "
     "carries 'meta' at most once, so ESC before a name that already contains 'meta ' (or before esc / a report) is its own "
     "'esc' event (tests/test_escapes.py test_esc_meta_1, test_bug_104): ESC+S -> ['meta '+N] if 'meta ' not in N else ['esc', N]",
@@ -877,6 +883,7 @@ class Judge:
             got = act[ei : ei + n]
             if not M.events_match(t.events, got):
                 cls = "garbage" if t.garbage else "naming"
+                tkind = re.sub(r"^(meta-){2,}", "nested-meta-", t.kind)
                 want = t.events
                 if any(isinstance(g, tuple) != isinstance(e, tuple) for g, e in zip(got, want)):
                     how = "key-vs-report-confusion" if not t.garbage else "accepted-as-report"
@@ -888,7 +895,7 @@ class Judge:
                 else:
                     how = "wrong-name"
                 return (
-                    f"C05|{cls}|{t.kind}|{how}",
+                    f"C05|{cls}|{tkind}|{how}",
                     f"{mode} mode, token {t.kind} {list(t.data)} in stream {list(data)}: got {act} expected {exp}",
                 )
             ei += n
@@ -1097,6 +1104,11 @@ def gen_token(rng, mode, model, escish=False):
         return gen_cpr(rng)
     if r < 0.58:
         inner = rng.random()
+        if inner < 0.12:
+            tok = gen_token(rng, mode, model, escish)
+            for _ in range(rng.randint(2, 4)):
+                tok = ["meta", tok]
+            return tok
         if inner < 0.45:
             return ["meta", ["byte", rng.choice([rng.randint(32, 126), rng.randint(1, 127)])]]
         if inner < 0.6:
@@ -1390,6 +1402,7 @@ def enumerations(ctx, R: Runner):
             cont = 0x80 | (b0 & 0x3F)
             for run in ([b0], [b0, cont], [b0, cont, cont ^ 1]):
                 R.stream("utf8", [["u8bad", run], ["byte", 49], ["seq", "[A"]], sched="none")
+                R.stream("utf8", [["byte", 97], ["u8bad", run]], sched="none")  # truncated at the end of the stream: flushed by the timer
                 ctx.count("enumeration_items:E0c")
     for dsc in [["broken", cls, t, 0] for cls, lst in SGR_BAD.items() for t in lst] + [["broken", "cpr-zero", t, 0] for t in CPR_BAD]:
         if mine():
@@ -1411,6 +1424,36 @@ def enumerations(ctx, R: Runner):
         if mine():
             R.stream(mode, descs, sched="exhaustive", pairs=True)
             ctx.count("enumeration_items:E0d")
+    # E0e core, never skipped: ESC^k (k = 2, 3, 4) in front of one token of every kind, three modes, whole and every
+    # single cut x fire / no fire, judged against the model's ESC-prefix rule (absolute)
+    kinds = [
+        ["byte", 97], ["byte", 13], ["byte", 127],
+        ["seq", "[A"], ["seq", "[5~"], ["seq", "OP"], ["seq", "[200~"],
+        ["seq", "[1;3A"], ["seq", "Oa"], ["seq", "[1;4A"], ["seq", "[1;8A"], ["seq", "[3;4~"],
+        ["x10", 32, 40, 50], ["x10", 35, 41, 51], ["x10", 32 + 32, 42, 52],
+        ["sgr", 0, 12, 7, "M"], ["sgr", 0, 12, 7, "m"], ["sgr", 20, 1, 1, "M"],
+        ["cpr", 5, 7], ["cpr", 24, 80],
+        ["byte", 27],
+        ["broken", "prefix-truncated", "[1;", 1], ["broken", "prefix-truncated", "O", 1],
+        ["broken", "x10-truncated", "[M ", 1], ["broken", "sgr-truncated", "[<0;1", 1], ["broken", "csi-unknown", "[99z", 0],
+    ]
+    per_mode = {"utf8": [["utf8", 0xE9], ["utf8", 0x3042], ["utf8", 0x1F600]], "wide": [["dbcs", 0xA4, 0xA2]], "narrow": [["byte", 0xE9]]}
+    for mode in MODES:
+        for inner in [*kinds, *per_mode[mode]]:
+            for depth in (2, 3, 4):
+                if not mine():
+                    continue
+                dsc = inner
+                for _ in range(depth):
+                    dsc = ["meta", dsc]
+                tok = model.realize(dsc, mode)
+                descs = [dsc] if tok.end_only else [dsc, ["byte", 122]]
+                before = ctx.counters["oracle_b_naming_streams"] + ctx.counters["oracle_d_garbage_streams"]
+                R.stream(mode, descs, sched="exhaustive", pairs=False)
+                judged = ctx.counters["oracle_b_naming_streams"] + ctx.counters["oracle_d_garbage_streams"] - before
+                ctx.count("oracle_b_esc_nested_judged", judged)
+                ctx.count(f"esc_depth:{depth}", judged)
+                ctx.count("enumeration_items:E0e")
     # E1 every named sequence, alone (all cuts and cut pairs x fire patterns) in every mode, and embedded
     for si, seq in enumerate(model.named):
         for mi, mode in enumerate(MODES):
